@@ -171,6 +171,27 @@ def self_calls(f, with_super=False):
     return out
 
 
+def events(f, cname):
+    """attribute bindings of self and calls on self / through super(), in evaluation order: ("w", attr) | ("c", method) |
+    ("s", method).  A binding takes effect at the end of its statement (after the calls on its right-hand side)."""
+    ev = []
+    for n in ast.walk(f):
+        if isinstance(n, (ast.Assign, ast.AugAssign, ast.AnnAssign)):
+            tg = n.targets if isinstance(n, ast.Assign) else [n.target]
+            for t in [x for t in tg for x in _targets(t)]:
+                a = _self_attr(t)
+                if a is not None and not (isinstance(n, ast.AnnAssign) and n.value is None):
+                    ev.append(((n.end_lineno, n.end_col_offset), ("w", _mangle(cname, a))))
+        if isinstance(n, ast.Call) and isinstance(n.func, ast.Attribute):
+            v = n.func.value
+            if isinstance(v, ast.Name) and v.id == "self":
+                ev.append(((n.end_lineno, n.end_col_offset - 1), ("c", n.func.attr)))
+            elif isinstance(v, ast.Call) and isinstance(v.func, ast.Name) and v.func.id == "super":
+                ev.append(((n.end_lineno, n.end_col_offset - 1), ("s", n.func.attr)))
+    ev.sort(key=lambda x: x[0])
+    return [e for _, e in ev]
+
+
 def inplace_ops(f, cname):
     out = []
     for n in ast.walk(f):
@@ -277,7 +298,7 @@ def composite_system():
 
 # ----------------------------------------------------------------------------- generic writer tables
 def object_tables():
-    writers, decos, inplace, bases, methods, calls = [], [], [], [], [], []
+    writers, decos, inplace, bases, methods, calls, evs = [], [], [], [], [], [], []
     known = {n for _, ns in CLASSES for n in ns}
     for rel, names in CLASSES:
         tree = _tree(rel)
@@ -292,6 +313,9 @@ def object_tables():
                 sc = self_calls(m, with_super=True)
                 if sc:
                     calls.append((cname, m.name, sc))
+                e = events(m, cname)
+                if e:
+                    evs.append((cname, m.name, e))
                 w = direct_writes(m, cname)
                 if w:
                     writers.append((cname, m.name, w))
@@ -309,7 +333,7 @@ def object_tables():
             if any(isinstance(n, ast.FunctionDef) and n.name in ("__setattr__", "__getattr__", "__getattribute__", "__slots__")
                    for n in c.body):
                 raise Untranslatable(f"{rel}: {cname} customises attribute access")
-    return writers, decos, inplace, bases, methods, calls
+    return writers, decos, inplace, bases, methods, calls, evs
 
 
 # ----------------------------------------------------------------------------- PGD.set_constraint_from_standard_qt_and_option
@@ -451,6 +475,136 @@ def param_writes():
     return out
 
 
+# ----------------------------------------------------------------------------- weighting modes of the loss options / losses
+WSE = "quara/loss_function/weighted_probability_based_squared_error.py"
+WRE = "quara/loss_function/weighted_relative_entropy.py"
+PBL = "quara/loss_function/probability_based_loss_function.py"
+MPROC = "quara/objects/mprocess.py"
+
+
+def _accepted_modes(rel, cname):
+    """`if not mode_weight in [<strings>]: raise` in the option constructor"""
+    init = pytolean.find_def(_cls(_tree(rel), cname, rel), "__init__")
+    for n in ast.walk(init):
+        if isinstance(n, ast.If) and isinstance(n.test, ast.UnaryOp) and isinstance(n.test.op, ast.Not) \
+                and isinstance(n.test.operand, ast.Compare) and isinstance(n.test.operand.ops[0], ast.In) \
+                and isinstance(n.test.operand.comparators[0], ast.List) and any(isinstance(b, ast.Raise) for b in n.body):
+            vals = n.test.operand.comparators[0].elts
+            if all(isinstance(v, ast.Constant) and isinstance(v.value, str) for v in vals):
+                return [v.value for v in vals]
+    raise Untranslatable(f"{rel}: {cname}.__init__ has no `if not mode_weight in [...]: raise`")
+
+
+def _mode_branches(rel, cname, setter):
+    """the if / elif chain of `_set_weights_by_mode`: (mode strings of the branch, what it does with the weights)"""
+    f = pytolean.find_def(_cls(_tree(rel), cname, rel), "_set_weights_by_mode")
+    body = [s for s in f.body if not (isinstance(s, ast.Expr) and isinstance(s.value, ast.Constant))]
+    if len(body) != 1 or not isinstance(body[0], ast.If):
+        raise Untranslatable(f"{rel}:{f.lineno}: _set_weights_by_mode is not a single if / elif chain")
+
+    def modes(test):
+        parts = test.values if isinstance(test, ast.BoolOp) and isinstance(test.op, ast.Or) else [test]
+        out = []
+        for t in parts:
+            if not (isinstance(t, ast.Compare) and isinstance(t.ops[0], ast.Eq) and isinstance(t.left, ast.Name)
+                    and t.left.id == "mode_weight" and isinstance(t.comparators[0], ast.Constant)):
+                raise Untranslatable(f"{rel}:{t.lineno}: branch test outside the shape: `{ast.unparse(t)[:80]}`")
+            out.append(t.comparators[0].value)
+        return out
+
+    def action(stmts):
+        if len(stmts) == 1 and isinstance(stmts[0], ast.Pass):
+            return "keep"
+        calls = [n for s in stmts for n in ast.walk(s) if isinstance(n, ast.Call) and isinstance(n.func, ast.Attribute)
+                 and isinstance(n.func.value, ast.Name) and n.func.value.id == "self" and n.func.attr == setter]
+        if len(calls) != 1 or len(calls[0].args) != 1:
+            raise Untranslatable(f"{rel}:{stmts[0].lineno}: branch does not end in one self.{setter}(…)")
+        arg = ast.unparse(calls[0].args[0])
+        if arg == "None":
+            return "reset"
+        if arg == "self.option.weights":
+            return "option"
+        if any(isinstance(s, ast.For) for s in stmts) and isinstance(calls[0].args[0], ast.Name):
+            return "computed"
+        raise Untranslatable(f"{rel}:{calls[0].lineno}: unrecognised weights argument `{arg}`")
+    out = []
+    node = body[0]
+    while True:
+        out.append((modes(node.test), action(node.body)))
+        if len(node.orelse) == 1 and isinstance(node.orelse[0], ast.If):
+            node = node.orelse[0]
+        elif not node.orelse:
+            break
+        else:
+            raise Untranslatable(f"{rel}:{node.lineno}: else branch in _set_weights_by_mode")
+    return out
+
+
+def loss_wiring():
+    """self-method calls of set_from_standard_qtomography_option_data in source order, with their guard"""
+    f = pytolean.find_def(_cls(_tree(PBL), "ProbabilityBasedLossFunction", PBL), "set_from_standard_qtomography_option_data")
+    out = []
+    for s in f.body:
+        if isinstance(s, ast.Expr) and isinstance(s.value, ast.Constant):
+            continue
+        if isinstance(s, ast.Expr) and isinstance(s.value, ast.Call) and _self_attr(s.value.func) is not None:
+            out.append((s.value.func.attr, "always"))
+        elif isinstance(s, ast.If) and isinstance(s.test, ast.Name) and not s.orelse and len(s.body) == 1 \
+                and isinstance(s.body[0], ast.Expr) and isinstance(s.body[0].value, ast.Call) \
+                and _self_attr(s.body[0].value.func) is not None:
+            out.append((s.body[0].value.func.attr, s.test.id))
+        elif isinstance(s, ast.Assign) and not any(_self_attr(t) for t in s.targets):
+            continue
+        else:
+            raise Untranslatable(f"{PBL}:{s.lineno}: statement outside the wiring shape: `{ast.unparse(s)[:80]}`")
+    return out
+
+
+def hss_alias_bits():
+    """does `convert_var_to_hss` hand back matrices that are views of its parameter `var`?  One bit per branch of
+    `if on_para_eq_constraint:`: the last binding of the reshaped name in that branch may alias `var`."""
+    f = pytolean.find_def(_tree(MPROC), "convert_var_to_hss")
+    top = [s for s in f.body if isinstance(s, ast.If) and isinstance(s.test, ast.Name) and s.test.id == "on_para_eq_constraint"]
+    if len(top) != 1 or not top[0].orelse:
+        raise Untranslatable(f"{MPROC}:{f.lineno}: expected `if on_para_eq_constraint: … else: …`")
+    after = f.body[f.body.index(top[0]) + 1:]
+    resh = [n for s in after for n in ast.walk(s) if isinstance(n, ast.Call) and isinstance(n.func, ast.Attribute)
+            and n.func.attr == "reshape" and isinstance(n.func.value, ast.Name)]
+    if len(resh) != 1:
+        raise Untranslatable(f"{MPROC}:{f.lineno}: expected one `<name>.reshape(…)` after the branches")
+    name = resh[0].func.value.id
+    # the returned list must be built from the reshaped array only (views of it)
+    ret = [s for s in f.body if isinstance(s, ast.Return)]
+    if len(ret) != 1 or not isinstance(ret[0].value, ast.Name):
+        raise Untranslatable(f"{MPROC}:{f.lineno}: return outside the shape")
+
+    def branch_bit(stmts):
+        al = {"var"}
+        alias = None
+        for s in stmts:
+            for n in ast.walk(s):
+                if isinstance(n, ast.Assign):
+                    v = is_view_of(n.value, al)
+                    for t in n.targets:
+                        if isinstance(t, ast.Name):
+                            if v:
+                                al.add(t.id)
+                            else:
+                                al.discard(t.id)
+                            if t.id == name:
+                                alias = v
+        if alias is None:
+            raise Untranslatable(f"{MPROC}:{stmts[0].lineno}: `{name}` is not bound in this branch")
+        return alias
+    # calc_proj_eq_constraint_with_var must really write in place into what it got from convert_var_to_hss
+    c = pytolean.find_def(_cls(_tree(MPROC), "MProcess", MPROC), "calc_proj_eq_constraint_with_var")
+    src = ast.unparse(c)
+    if "convert_var_to_hss(" not in src or not any(isinstance(n, ast.AugAssign) and isinstance(n.target, ast.Subscript)
+                                                 for n in ast.walk(c)):
+        raise Untranslatable(f"{MPROC}:{c.lineno}: calc_proj_eq_constraint_with_var no longer corrects the rows in place")
+    return branch_bit(top[0].body), branch_bit(top[0].orelse)
+
+
 # ----------------------------------------------------------------------------- emit
 def _s(x):
     return '"' + x.replace("\\", "\\\\").replace('"', '\\"') + '"'
@@ -462,9 +616,15 @@ def _ls(xs):
 
 def generate():
     cache_init, getters, deletes, writers = composite_system()
-    ow, od, oi, ob, om, oc = object_tables()
+    ow, od, oi, ob, om, oc, oe = object_tables()
     pre, guard, branches = pgd_set_constraint()
     pw = param_writes()
+    wse_acc = _accepted_modes(WSE, "WeightedProbabilityBasedSquaredErrorOption")
+    wre_acc = _accepted_modes(WRE, "WeightedRelativeEntropyOption")
+    wse_br = _mode_branches(WSE, "WeightedProbabilityBasedSquaredError", "set_weight_matrices")
+    wre_br = _mode_branches(WRE, "WeightedRelativeEntropy", "set_weights")
+    wiring = loss_wiring()
+    bit_t, bit_f = hss_alias_bits()
     L = ["/-! GENERATED by harness/c13_translate.py from /repo on every run — do not edit.",
          "Attribute discipline of the classes behind the C13 state machines, read off the source with `ast`. -/",
          "namespace QGen.C13", "",
@@ -502,6 +662,24 @@ def generate():
           "parameter (flow-insensitive may-analysis through aliases and views) -/",
           "def paramWrites : List (String × String × String) := [",
           "  " + ",\n  ".join(f"({_s(a)}, {_s(b)}, {_s(c)})" for a, b, c in pw) + "]", "",
+          "/-- (class, method, events in evaluation order): (\"w\", attribute bound) | (\"c\", method called on self) |",
+          "(\"s\", method called through super()) -/",
+          "def objEvents : List (String × String × List (String × String)) := [",
+          "  " + ",\n  ".join(f"({_s(c)}, {_s(m)}, [" + ", ".join(f"({_s(k)}, {_s(v)})" for k, v in e) + "])"
+                              for c, m, e in oe) + "]", "",
+          "/-- mode strings the option constructors accept -/",
+          f"def wseAccepted : List String := {_ls(wse_acc)}",
+          f"def wreAccepted : List String := {_ls(wre_acc)}",
+          "/-- `_set_weights_by_mode`: (mode strings of the branch, action: reset = setter(None), option = setter(self.option.weights),",
+          "computed = weights computed from the data, keep = pass) -/",
+          "def wseBranches : List (List String × String) := [" + ", ".join(f"({_ls(m)}, {_s(a)})" for m, a in wse_br) + "]",
+          "def wreBranches : List (List String × String) := [" + ", ".join(f"({_ls(m)}, {_s(a)})" for m, a in wre_br) + "]",
+          "/-- setter calls of `set_from_standard_qtomography_option_data` in source order, with their guard -/",
+          "def lossWiring : List (String × String) := [" + ", ".join(f"({_s(m)}, {_s(g)})" for m, g in wiring) + "]", "",
+          "/-- `convert_var_to_hss`: may the returned matrices be views of the parameter `var`? (branch on_para_eq_constraint",
+          "True, branch False) — `calc_proj_eq_constraint_with_var` corrects their first rows in place -/",
+          f"def hssAliasFlagTrue : Bool := {'true' if bit_t else 'false'}",
+          f"def hssAliasFlagFalse : Bool := {'true' if bit_f else 'false'}", "",
           "/-- `set_constraint_from_standard_qt_and_option`: attributes assigned before the guard -/",
           f"def pgdPre : List String := {_ls(pre)}",
           "/-- the guard `if self.<a> is not None: return` -/",
